@@ -135,5 +135,28 @@ func famRegs2(r *rng) []string {
 		p+"++; "+p+" := "+val)
 	res = append(res, "func fa("+p+", z){ "+asg+"; println("+p+"); ["+p+", z] }", "println(fa(3, 4))", "println(fa(3, 4))", "println(fa(\"x\", 4))")
 	res = append(res, "for "+p+" = 2 { "+asg+"; println("+p+") }", "println("+p+")")
+	// 3. a loop register written to an OUTER variable from inside a function as the first use of that name in the call
+	// (the value stored must be the integer of that moment, not the live register), then loops that reuse the slot
+	res = append(res, "idx = -1", "find = func(a, x){ for i = len(a) { if a[i] == x { idx = i; break } }; idx }",
+		"println(find([5, 7, 9, 7], 7), idx)", "s = 0; for j = 100 { s = s + j }; println(s, idx)",
+		"last = func(a){ for k = len(a) { seen = k }; 0 }; seen = -1; last([1, 2, 3]); for m = 50 { m }; println(seen)")
 	return res
+}
+
+// C05/C10: a Go-level panic (the depth guard) unwinding through counted loops whose variables live in registers, in a
+// session that carries on: the loop's clean-up runs while the innermost call's scope is still current
+func famRegsPanic(r *rng) []string {
+	v := pickS(r, "i", "n", "k")
+	at := r.intn(4)
+	rec := pickS(r, "func rr(n){ rr(n+1) }", "func rr(){ rr() }", "rr = func(n){ 1 + rr(n+1) }")
+	call := "rr(0)"
+	if rec == "func rr(){ rr() }" {
+		call = "rr()"
+	}
+	loop := "for " + v + " = 5 { if " + v + " == " + fmt.Sprint(at) + " { " + call + " } }"
+	if r.intn(2) == 0 {
+		loop = "for o = 2 { " + loop + " }"
+	}
+	return []string{rec, loop, "println(\"" + v + " is\", " + v + ")", "for " + v + " = 3 { print(" + v + ") }; println()",
+		"func w(" + v + "){ for q = 2 { " + call + " }; " + v + " }", "w(4)", "println(w(1) == 1)", "for a = 2 { for b = 2 { for c = 2 { print(a, b, c) } } }; println()"}
 }
